@@ -1732,6 +1732,17 @@ pub fn run_many(p: &ConcParams, shard: &mut Shard) {
             shard.stat(&format!("nontrivial:{}", fam.name()), 1);
         }
         let mut vs = payload::take_violations();
+        // Whatever monitor fires in a family that exists to exercise one property (handle churn, stream
+        // creation / removal during traffic) is also a finding about that property: the operation was
+        // supposed to be invisible.
+        let also = fam.also();
+        if !also.is_empty() {
+            for v in vs.iter_mut() {
+                if !v.prop.contains(&also[1..]) {
+                    v.prop = payload::intern(format!("{}{}", v.prop, also));
+                }
+            }
+        }
         // A stream published at a lapped position (open finding, C10) removes back-pressure for
         // the whole queue: everything else such a run reports is a consequence of that one defect.
         const LAPPED: &str = "add-stream-start:shared-parent-advanced-during-call";
